@@ -113,6 +113,15 @@ def shareGrad (w : World) (p q : Nat) : World :=
   | some P, some Q => if P.hasGrad && P.size == Q.size then updPar w q (fun Q' => { Q' with hasGrad := true, gval := P.gval }) else w
   | _, _ => w
 
+/-- `Parameter(p)` / `Parameter(t)` over an existing parameter or tensor (the copy constructor): a NEW object that starts with every
+    attribute of its source — size, flag, gradient values — and from then on has a life of its own -/
+def wrapPar (w : World) (p : Nat) : World × Option Nat :=
+  match w.pars[p]? with
+  | some P => ({ w with pars := w.pars ++ [P] }, some w.pars.length)
+  | none => (w, none)
+/-- the `requires_grad` setter on ONE parameter object -/
+def setParReqGrad (w : World) (p : Nat) (v : Bool) : World := updPar w p (fun P => { P with reqGrad := v })
+
 def setReqGrad (v : Bool) (w : World) (m : Nat) : World :=
   (parameters w (fuelOf w) m).foldl (fun w p => updPar w p (fun P => { P with reqGrad := v })) w
 
